@@ -460,9 +460,12 @@ def point_wiring(env, nsurf, compressible, rotational):
         env.holds("C19,C06,C09", "analysis point: the user's %s has one source" % nm, len(ext) == 1, str(sorted(srcs)))
         env.holds("C19,C09", "analysis point: an internal source of %s exists only in the compressible solver (wind frame)" % nm,
                   (not internal) or compressible, str(internal))
-    d = dangling_inputs(p, "ap.", allowed=())
+    d = dangling_inputs(p, "ap.", allowed=(), names=[s["name"] for s in surfs])
     env.holds("C19,C05,C06,C18", "analysis point: no input is left at its default while the point computes a variable of that name",
               not d, "; ".join(d[:4]))
+    from .c16 import foreign_surface_components
+    fs = foreign_surface_components(p, [s["name"] for s in surfs])
+    env.holds("C19,C17,C18", "analysis point: the groups of each surface are built from that surface's own dictionary", not fs, "; ".join(fs[:4]))
     from .c16 import stale_reads
     st = stale_reads(p, "")
     env.holds("C19,C05,C06,C09,C03", "analysis point: every input is computed before it is read (no value of the previous run)", not st, "; ".join(st[:4]))
